@@ -1,9 +1,20 @@
 package main
 
+import "golang.org/x/tools/go/ssa"
+
 // aliased returns the rule name a shared rule function should report under.
 func (r *Run) aliased(name string) string {
 	if r.ruleAlias != "" {
 		return r.ruleAlias
 	}
 	return name
+}
+
+// eachInstrDeep visits fn and, recursively, its anonymous functions (range-over-func loop
+// bodies and other closures are separate SSA functions).
+func eachInstrDeep(fn *ssa.Function, f func(ssa.Instruction)) {
+	eachInstr(fn, f)
+	for _, a := range fn.AnonFuncs {
+		eachInstrDeep(a, f)
+	}
 }
